@@ -491,8 +491,58 @@ def rule_lossall(repo, tier):
     return out
 
 
+@guarded
+def rule_quality(repo, tier):
+    """The damping moves "by the ratio of actual to predicted decrease".  The predicted decrease of the linearised model for the step D is
+    |R|^2 - |R + J D|^2 = -(J D)^T (2 R + J D): it depends on the residual R (odd parity - the cross term -2 (JD)^T R is what makes it positive for a
+    descent step), on J and on D.  A denominator without R, e.g. |J D|^2, equals it only for the undamped Gauss-Newton step.  The numerator is
+    last - loss (previous even, new odd).  Adaptive and TrustRegion use the same ratio."""
+    from ..expr import parities
+    res = RuleResult('C08.QUAL', 'strategies: the step quality is (last - loss) / predicted, the predicted decrease is built from R (odd parity), J and D, and the two '
+                     'adaptive strategies use the same expression', floor=2)
+    forms = {}
+    for cname in ('Adaptive', 'TrustRegion'):
+        f = repo.func(STRAT, cname + '.update')
+        q = None
+        for n in ast.walk(f.node):
+            if isinstance(n, ast.Assign) and any(isinstance(t, ast.Name) and t.id == 'quality' for t in n.targets):
+                q = n
+        if q is None:
+            # any assignment whose value is compared with pg['high'] / pg['low']
+            cands = [n for n in ast.walk(f.node) if isinstance(n, ast.Assign) and isinstance(n.value, ast.BinOp) and isinstance(n.value.op, ast.Div)]
+            q = cands[0] if cands else None
+        if q is None or not (isinstance(q.value, ast.BinOp) and isinstance(q.value.op, ast.Div)):
+            raise AnalysisError('C08.QUAL: the quality ratio of %s.update was not found' % cname)
+        num, den = q.value.left, q.value.right
+        pp_ = f.pos_params
+        names = {k: (pp_[i] if len(pp_) > i else k) for i, k in ((2, 'last'), (3, 'loss'), (4, 'J'), (5, 'D'), (6, 'R'))}
+        isn = lambda nm: (lambda y: isinstance(y, ast.Name) and y.id == names[nm])
+        p_last, p_loss = parities(num, isn('last')), parities(num, isn('loss'))
+        p_R = parities(den, isn('R'))
+        has = {k: any(isn(k)(y) for y in ast.walk(den)) for k in ('R', 'J', 'D')}
+        ok = p_last == {0} and p_loss == {1} and all(has.values()) and p_R == {1}
+        res.inst({'function': f.fq, 'quality': src(q.value)[:80], 'numerator last - loss': p_last == {0} and p_loss == {1}, 'denominator mentions': has,
+                  'parity of R in the predicted decrease': sorted(p_R, key=str), 'ok': ok}, f.fq)
+        forms[cname] = dump(q.value)
+        if not ok:
+            why = []
+            if not (p_last == {0} and p_loss == {1}):
+                why.append('the numerator is not last - loss')
+            for k, v in has.items():
+                if not v:
+                    why.append('the predicted decrease does not depend on %s' % k)
+            if has['R'] and p_R != {1}:
+                why.append('R enters the predicted decrease with parity %s (needed: odd, -(J D)^T (2 R + J D))' % sorted(p_R, key=str))
+            res.add(Finding('C08.QUAL', f, '%s.update: quality `%s`: %s; the ratio of actual to predicted decrease then misjudges every damped step and the damping moves '
+                            'against the documented rule' % (cname, src(q.value)[:70], '; '.join(why)), node=q, construct='quality ratio|' + '; '.join(why)[:80]))
+    if len(set(forms.values())) > 1 and not res.findings:
+        f = repo.func(STRAT, 'TrustRegion.update')
+        res.add(Finding('C08.QUAL', f, 'Adaptive.update and TrustRegion.update compute the step quality by different expressions', construct='quality siblings differ'))
+    return res
+
+
 def _rules_core(repo, tier):
-    return [rule_lossall(repo, tier), rule_ts(repo, tier), rule_rej_exc_strat(repo, tier), rule_strategy(repo, tier)]
+    return [rule_lossall(repo, tier), rule_ts(repo, tier), rule_rej_exc_strat(repo, tier), rule_strategy(repo, tier), rule_quality(repo, tier)]
 
 
 def rules(repo, tier):
